@@ -64,6 +64,45 @@ def run_cuts(stream_bytes, cuts, raw=False):
     return events
 
 
+_NODE = {}
+
+
+def run_socket(stream_bytes, arrivals):
+    """Feed a real LocalPeer's read handler through a non-blocking in-memory socket; one event per arrival."""
+    import selectors
+    from harness import fakenet, sk
+    if "n" not in _NODE:
+        cfg = sk.Cfg()
+        w = sk.World(cfg, sk.Keys(2))
+        g = w.make_genesis()
+        cs = w.T["CoinState"].empty().add_block_no_validation(g)
+        _NODE["n"] = fakenet.Node(cs, g, real_store=False)
+        _NODE["k"] = 0
+    node = _NODE["n"]
+    _NODE["k"] += 1
+    name = "c%d" % _NODE["k"]
+    peer = node.connect(name, host="10.0.9.%d" % (_NODE["k"] % 250 + 1), port=6000 + _NODE["k"], hello=False)
+    rec = RecPeer()
+    peer.handle_message_received = rec.handle_message_received        # record what the receiver hands over; no protocol handling
+    sock = node.peers[name][1]
+    rc = peer.receiver
+    pos, events = 0, []
+    for k in arrivals:
+        sock.inbox += stream_bytes[pos:pos + k]
+        pos += k
+        guard = 0
+        while sock.inbox and not sock.closed and guard < 100000:
+            guard += 1
+            key = selectors.SelectorKey(sock, sock.fd, selectors.EVENT_READ, peer)
+            node.local.handle_remote_peer_selector_event(key, selectors.EVENT_READ)
+        refused = sock.closed or not node.is_open(name)
+        events.append({"k": k, "ids": list(rec.ids), "refused": bool(refused), "buflen": len(rc.buffer),
+                       "magic": bool(rc.magic_read), "len": -1 if rc.len is None else min(rc.len, 2 ** 31 - 1)})
+        if refused:
+            break
+    return events
+
+
 def run(pid, tier, replay=None):
     chk = Check(pid, tier)
     quick = tier != "thorough"
@@ -186,6 +225,36 @@ def run(pid, tier, replay=None):
         verdicts, r2 = tracecheck.run("TraceFraming", {"streams": streams, "traces": traces[k:k + B]},
                                       {"Magic": MAGIC, "MaxSize": real_max}, ids=ids[k:k + B], workers=4, timeout=3000)
         collect(chk, verdicts, r2, traces[k:k + B], streams)
+    # (d) the same through the node's socket read path: LocalPeer.handle_remote_peer_selector_event on a non-blocking in-memory socket.
+    # An "arrival" is what the transport has delivered when the selector reports the socket readable; the node is given read events
+    # while bytes are pending.  Arrival sizes include exact multiples of the read size.
+    from harness import fakenet
+    long_parts = [0, 5, 6, 1, 2, 5, 4, 7, 8, 6, 5, 3, 7, 5, 6, 0, 4]
+    sock_shapes = [long_parts, long_parts[3:] + ["badmagic", 4], [5, 6, 5, "oversize", 7], [6, 5, 5, ("len_then_body", 0xffffffff, 7, 1), 7], [7, 4], [5]]
+    straces, sids, sstreams = [], [], []
+    for sd_ in sock_shapes:
+        b, _ = mk(sd_)
+        # pad with whole GetPeers frames so that the total length is an exact multiple of 1024 for one variant of every shape
+        sstreams.append({"bytes": list(b), "ids": label_frames(b, real_max)})
+        s = len(sstreams)
+        L = len(b)
+        arrs = [[L], [1024] * (L // 1024) + ([L % 1024] if L % 1024 else []), [2048] * (L // 2048) + ([L % 2048] if L % 2048 else []),
+                [1023, 1025] + ([L - 2048] if L > 2048 else []), [1, 1024, 1023] + ([L - 2048] if L > 2048 else []), [3072, L - 3072] if L > 3072 else [L]]
+        for _ in range(6 if quick else 60):
+            pts = sorted(rng.sample(range(1, L), min(L - 1, rng.randint(1, 6))))
+            pts = sorted(set(pts + [x for x in (1024, 2048, 4096) if x < L and rng.random() < 0.5]))
+            arrs.append([b_ - a_ for a_, b_ in zip([0] + pts, pts + [L])])
+        for arr in arrs:
+            arr = [a for a in arr if a > 0]
+            if sum(arr) != L:
+                continue
+            tid += 1
+            straces.append({"id": tid, "s": s, "events": run_socket(b, arr)})
+            sids.append(tid)
+            chk.case(("socket", s, tuple(arr)), nontrivial=True)
+    chk.sample({"source": "socket read path", "stream_shape": sock_shapes[1], "arrivals": [e["k"] for e in straces[1]["events"]]})
+    verdicts, r3 = tracecheck.run("TraceFraming", {"streams": sstreams, "traces": straces}, {"Magic": MAGIC, "MaxSize": real_max}, ids=sids, workers=4, timeout=3000)
+    collect(chk, verdicts, r3, straces, sstreams)
     chk.extra["rule"] = ("(stream, cutting) pairs: every behaviour of MC_Framing replayed; real streams of 1-7 real framed messages (with wrong magic, "
                          "over-limit length, truncated tail) under all-at-once, byte-at-a-time, every 2-way cut, %s 3-way cuts and random many-way cuts; "
                          "non-trivial = more than one read" % ("sampled" if quick else "every (short streams) / sampled"))
